@@ -169,8 +169,18 @@ def impl_compare(case):
 
     from delb import altered_default_filters
 
-    a = make(case["a"], case["how"])
-    b = make(case["b"], case["how"])
+    def respell(node, how):
+        """the same tree with its namespaces declared in another way (what the nodes report decides about equality)"""
+        if how == "default" and node.namespace:
+            return Document(node.serialize(namespaces={"": node.namespace})).root
+        if how == "prefixed" and node.namespace:
+            return Document(node.serialize(namespaces={"pp": node.namespace})).root
+        if how == "clone":
+            return node.clone(deep=True)
+        return node
+
+    a = respell(make(case["a"], case["how"]), case.get("respell", [None, None])[0])
+    b = respell(make(case["b"], case["how"]), case.get("respell", [None, None])[1])
     # all nodes stay referenced for the duration of the case: unreferenced adjacent text nodes may be coalesced by a
     # garbage collection (C04), which changes the number of text nodes compare_trees sees (false alarm of the first
     # thorough run, DESIGN.md section 5)
@@ -241,7 +251,33 @@ def gen_case(rng):
         b, kind = mutate(rng, t)
         if b is None:
             b, kind = copy.deepcopy(t), "none"
-    return {"a": t, "b": b, "kind": kind, "filter": rng.choice(FILTERS), "how": rng.choice(["parsed", "api"])}
+    case = {"a": t, "b": b, "kind": kind, "filter": rng.choice(FILTERS), "how": rng.choice(["parsed", "api"])}
+    if rng.random() < 0.3:
+        # the two sides declare their namespaces differently (default namespace / prefix / as cloned)
+        case["respell"] = [rng.choice([None, "default", "prefixed", "clone"]), rng.choice(["default", "prefixed", "clone"])]
+    return case
+
+
+def same_namespace_attributes(rng, t):
+    """attributes are put into the namespace of their element (in a default-namespace spelling they are written unprefixed)"""
+    if t[0] == "t":
+        for a in t[3]:
+            if t[1] and a[0] != trees.XML_NS and rng.random() < 0.7 and not any(o is not a and o[1] == a[1] and o[0] == t[1] for o in t[3]):
+                a[0] = t[1]
+        for k in t[4]:
+            same_namespace_attributes(rng, k)
+    return t
+
+
+def gen_spelling_case(rng):
+    t = trees.gen_tree(rng, max_depth=3, max_kids=3, nss=["urn:x", "urn:x", "urn:y"], p_comment=0.1, p_pi=0.05,
+                       text=lambda g: trees.gen_text(g, ws_prob=0.2), inherit_ns=0.9)
+    same_namespace_attributes(rng, t)
+    b, kind = (copy.deepcopy(t), "none") if rng.random() < 0.2 else mutate(rng, t)
+    if b is None:
+        b, kind = copy.deepcopy(t), "none"
+    return {"a": t, "b": b, "kind": kind, "filter": rng.choice(FILTERS), "how": rng.choice(["parsed", "api"]),
+            "respell": [rng.choice([None, "default", "prefixed", "clone"]), rng.choice(["default", "prefixed", "clone"])]}
 
 
 def is_known(case):
@@ -313,13 +349,14 @@ def check(run: Run, lean: dict) -> int:
     ok = lean.get("driver_ok", True)
     run_cases(run, corpus(), "corpus", ok)
     run_cases(run, [gen_case(run.rng) for _ in range(n)], "generated", ok)
+    run_cases(run, [gen_spelling_case(run.rng) for _ in range(n // 3)], "two spellings of the namespaces", ok)
     leaf_root_cases(run, "childless roots", 150)
     return run.finish(lean, LEVEL, ASSUME, search=search)
 
 
 def search(run: Run):
     probe = Run(run.prop, run.tier, run.seed)
-    cands = [m["case"] for m in run.mismatches] + corpus() + [gen_case(run.rng) for _ in range(20000)]
+    cands = [m["case"] for m in run.mismatches] + corpus() + [(gen_spelling_case if i % 3 == 0 else gen_case)(run.rng) for i in range(20000)]
     for c in cands:
         try:
             ta, tb, out = impl_compare(c)
